@@ -5,6 +5,7 @@ import (
 	"errors"
 	"fmt"
 	"io"
+	"os"
 	"sort"
 	"sync"
 	"time"
@@ -49,6 +50,16 @@ var scanFaultStates = []string{
 // to place the fault and to know whether a compaction is worth waiting for.
 const scanLaunch = heapLimit + 17
 
+// Round 7: the error KIND of the failing Fetch.  A listed meta blob whose Fetch answers os.ErrNotExist
+// (a listing and a content that disagree for a moment: lagging replica, eventually consistent listing)
+// is as unread as one whose Fetch fails otherwise: the scan must refuse or still end with the whole
+// mapping.  Own case ids (sf1000...) so that the earlier cases keep their ids and seeds.
+var scanFaultKinds7 = []string{
+	"fetch-of-a-listed-meta-blob-says-not-found",
+}
+
+const scanFault7Base = 1000
+
 var errScanFault = errors.New("verif: injected read failure of the wrapped meta store (transient)")
 
 // scanFault is one read fault of the meta store handed to one incarnation.
@@ -62,6 +73,7 @@ type scanFault struct {
 	// after bodyPermille/1000 of its bytes
 	fetchRef     blob.Ref
 	bodyPermille int
+	fetchErr     error // not nil: what the failing Fetch returns instead of errScanFault
 	// index: the setCall-th Set (1-based; 0: none) of the new incarnation's index fails once
 	setCall int
 	kv      *spyKV
@@ -151,6 +163,9 @@ func (b *brokenBody) Close() error { return nil }
 
 func (f *scanFault) fetch(ctx context.Context, l *lowStore, ref blob.Ref) (io.ReadCloser, uint32, error) {
 	if f.bodyPermille < 0 {
+		if f.fetchErr != nil {
+			return nil, 0, f.fetchErr
+		}
 		return nil, 0, errScanFault
 	}
 	rc, size, err := l.Fetch(ctx, ref)
@@ -175,6 +190,8 @@ func (f *scanFault) describe() string {
 		return fmt.Sprintf("%s: EnumerateBlobs call #%d of the meta store delivered %d of its %d entries, then failed", f.kind, f.enumCall, f.delivered, f.listed)
 	case f.enumCall >= 0:
 		return fmt.Sprintf("%s: EnumerateBlobs call #%d of the meta store (never made)", f.kind, f.enumCall)
+	case f.bodyPermille < 0 && f.fetchErr != nil:
+		return fmt.Sprintf("%s: Fetch(%s) of the meta store (a ref its listing returned) answered once with %q (errors.Is os.ErrNotExist: %v)", f.kind, f.fetchRef, f.fetchErr, errors.Is(f.fetchErr, os.ErrNotExist))
 	case f.bodyPermille < 0:
 		return fmt.Sprintf("%s: Fetch(%s) of the meta store failed once", f.kind, f.fetchRef)
 	}
@@ -197,6 +214,10 @@ func runScanFault(r *ev.Run, root string, c int) {
 	defer timed(id)()
 	kind := scanFaultKinds[c%len(scanFaultKinds)]
 	state := scanFaultStates[(c/len(scanFaultKinds))%len(scanFaultStates)]
+	if c >= scanFault7Base {
+		kind = scanFaultKinds7[(c-scanFault7Base)%len(scanFaultKinds7)]
+		state = scanFaultStates[((c-scanFault7Base)/len(scanFaultKinds7))%len(scanFaultStates)]
+	}
 	in, err := newInst(r, root, id)
 	if err != nil {
 		r.Inconclusive("key file: " + err.Error())
@@ -276,6 +297,13 @@ func runScanFault(r *ev.Run, root string, c int) {
 				if len(in.meta.raw(ref)) >= packedMin {
 					f.fetchRef = ref
 				}
+			}
+		}
+		if kind == "fetch-of-a-listed-meta-blob-says-not-found" {
+			// the plain error value every blobserver uses; later repetitions (thorough) also a wrapped one
+			f.fetchErr = os.ErrNotExist
+			if c-scanFault7Base >= len(scanFaultKinds7)*len(scanFaultStates) && rng.Intn(2) == 0 {
+				f.fetchErr = fmt.Errorf("verif: meta blob %v: %w", f.fetchRef, os.ErrNotExist)
 			}
 		}
 		if kind == "fetch-body-of-a-listed-meta-blob-breaks-off" {
